@@ -134,6 +134,9 @@ def run(ctx):
     driver = ctx.build_driver("tsv-c07")
     explorer = ctx.cargo_bin("c07")
     cunit = ctx.cunit("cunit_c07")
+    langdump = ctx.cunit("cunit_c02")  # language tables for the Lean port of the S-expression writer (C06)
+    if langdump:
+        ctx.env = dict(ctx.env, C07_LANGDUMP=langdump)
     if not (explorer and cunit and os.path.exists(driver)):
         jf.flush()
         return ctx.finish()
